@@ -57,16 +57,16 @@ CONFIG = {
     "case_to_replay": _c20_case,
     "parts": [LINK],
     "assumptions": [
-        "net/url of go1.26.8 (ParseRequestURI authority path: parse, parseAuthority, parseHost, validOptionalPort, unescape host/zone, shouldEscape table; QueryEscape/QueryUnescape, Values.Encode for the keys used) and netip.ParseAddr (IPv6 literals, embedded IPv4, zones) are hand-modelled in Model/NetURL.v and tied by correspondence only (ValidateRegistry on ~1.4e5 / 2.5e6 authorities quick / thorough: exhaustive to length 4/5 over 18 symbols, all 256 bytes in 7 templates, generated reg-names / ports / IP literals / escapes; no registry is unjudged). The harness refuses to run on another toolchain. The theorems about what ValidateRegistry accepts hold for every behaviour of netip.ParseAddr (parameter ip6_ok); the model rejects at once when the registry contains '?', '/' or '@'; that shortcut is proved equal to the step-by-step ParseRequestURI rendering (C20_registry_shortcuts_sound) in which only validUserinfo / unescaping of user-info and path stay abstract",
-        "go-digest v1.0.0 Digest.Validate is hand-modelled: algorithm in the fixed table sha256/384/512 AND linked into the binary (crypto.Hash.Available), lower-case hex of the exact length. Which source that is, is pinned: the harness refuses another version and go.sum's content hash is regenerated into the model (C20_go_digest_pinned). The link set is the parameter avail of model and theorems; it is exercised in two builds: all hashes linked (cmd/c20) and crypto/sha256 only (cmd/c20link). A binary that links no hash accepts no digest reference (theorems still hold; not run)",
+        "net/url of go1.26.8 (ParseRequestURI authority path: parse, parseAuthority, parseHost, validOptionalPort, unescape host/zone, shouldEscape table; QueryEscape/QueryUnescape, Values.Encode for the keys used) and netip.ParseAddr (IPv6 literals, embedded IPv4, zones) are hand-modelled in Model/NetURL.v; their character classes (shouldEscape for host / zone / query component, ishex) are proved equal to the toolchain's own encoding table, read off GOROOT/src/net/url/encoding_table.go by the translator (kind neturl_table, C20_neturl_classes_from_source); the control flow is tied by correspondence only (ValidateRegistry on ~1.4e5 / 2.5e6 authorities quick / thorough: exhaustive to length 4/5 over 18 symbols, all 256 bytes in 7 templates, generated reg-names / ports / IP literals / escapes; no registry is unjudged). The harness refuses to run on another toolchain. The theorems about what ValidateRegistry accepts hold for every behaviour of netip.ParseAddr (parameter ip6_ok); the model rejects at once when the registry contains '?', '/' or '@'; that shortcut is proved equal to the step-by-step ParseRequestURI rendering (C20_registry_shortcuts_sound) in which only validUserinfo / unescaping of user-info and path stay abstract",
+        "go-digest v1.0.0 Digest.Validate: the algorithm table (names, 2 * hash size, anchored regexes of the encoded part) is read off the pinned module's algorithm.go by the translator on every run (kind godigest_algorithms); the check assembled from it runs in the correspondence and is proved equal to the closed form of the theorems (C20_digest_from_source); only the control flow of Validate (split at the first ':', Available, then table) is hand-written. Which source that is, is pinned: the harness refuses another version and go.sum's content hash is regenerated into the model (C20_go_digest_pinned). The link set is the parameter avail of model and theorems; it is exercised in two builds: all hashes linked (cmd/c20) and crypto/sha256 only (cmd/c20link). A binary that links no hash accepts no digest reference (theorems still hold; not run)",
         "Go regexp semantics for the ASCII-only, fully anchored expressions used here = Base/Regex.v Lang (proved equal to the derivative matcher)",
         "generic URL syntax (RFC 3986 section 3) = Model url_split; url.ParseQuery restricted to '&'/'=' splitting + QueryUnescape = Model parse_query; both compared with net/url on every URL / request of the run",
         "fmt.Sprintf restricted to the verb %s and strings.Join = Model/RefURLGen.v sprintf_s / join_sep (the URL builders assembled from the string literals of registry/remote/url.go are what the correspondence runs; proved equal to the closed forms of the theorems)",
         "net/http between the built URL string and the recorded request is not modelled: requests are compared through URL.String() (identity on every URL the theorems cover); a base whose registry has an empty port ('reg:') is accepted by ParseReference but net/http strips the empty port from the request URL, so such bases are exercised for ParseReference only; literal &Repository{Reference: ...} values with an invalid base are outside the quantifier (the constructors NewRepository / NewRegistry+Repository validate: C20_new_repository_base_ok) and are compared with the model for ParseReference only",
         "out of scope: a descriptor whose Digest is not a valid digest (Fetch/Delete build the URL from desc.Digest unvalidated: compared with the model on URL-safe strings, not judged), mount from a source repository name that is not a valid repository (not judged), manifests with a subject (client-side referrers indexing sends further requests), the second and later pages of listings (their URL comes from the server's Link header), blob upload after the initial POST (Location comes from the server)",
     ],
-    "level_text": "Coq theorems for all strings and all sets of linked hash implementations, about a model that now includes the registry validator itself (net/url + netip of go1.26.8): parse = independent grammar (iff) with every component characterised (C20_tag_grammar, C20_repository_grammar, C20_digest_grammar, registry: C20_registry_regname_iff + C20_registry_bracket_iff = complete grammar of accepted registries modulo netip.ParseAddr, C20_registry_clean: no user-info / query / fragment / escape can hide in an accepted registry); format/parse round-trip for parsed references and for every Reference value that passes Validate (C20_validate_roundtrip); Repository.ParseReference characterised exactly (C20_repo_parse_iff_grammar) incl. agreement of the six forms and rejection of every other path (pre-fix code refuted); URL slot at full strength under RFC 3986 splitting with NO hypothesis about the registry left (C20_url_exact_go / _full, C20_op_requests_exact_paths_go); the query-carrying builders (referrers artifactType, blob mount: C20_url_referrers_at_exact, C20_url_mount_exact) and QueryEscape/ParseQuery round trips (C20_query_escape_roundtrip, C20_parse_query_encode) for all byte strings; every descriptor-driven operation (manifest/blob Fetch, Delete, Referrers, Mount, Push, Tags with setQueryParams paging) and Registry.Ping / Repositories: one request, documented method, exact slot, query decoding to exactly the documented parameters (C20_desc_op_requests_exact, C20_reg_op_requests_exact); every history of calls on a Repository stays in the base repository (C20_session_in_base), and so do oras.Tag / oras.TagN (content.go) for arbitrary source / destination strings (C20_oras_tag_in_base, C20_oras_tag_forms_agree); every Repository the constructors hand out has a valid base (C20_new_repository_base_ok, C20_registry_repository_base_ok). Tie: regexes, URL-builder literals, separators and the go-digest pin are regenerated from the Go source on every run (kinds regex, funcstrlits, gosumhash; the assembled builders are proved equal to the closed forms: C20_generated_builders_agree), 54 anchors; exhaustive small-scope + random + mutation differential run of model vs implementation on 14 case kinds (P R V G F W U Q O D T N E A) in two link configurations with coverage floors, per-operation watchdog and request cap; independent oracle (hand recognisers, ground truth by construction, net/url's own parse of every URL / query)",
-    "level_note": "correspondence only (hand model, no translator): net/url host parsing + netip.ParseAddr + QueryEscape (Model/NetURL.v, toolchain pinned), go-digest Validate (version and go.sum hash pinned), the request sequences of the operations (anchored). Oracle only (no theorem): error identity (errors.Is ErrInvalidReference). Operations are modelled for subject-less manifests in all three referrers-capability states, through the stores and the Repository wrappers; listings for their first page. Go regexp semantics = Base/Regex.v denotation",
+    "level_text": "Coq theorems for all strings and all sets of linked hash implementations, about a model that now includes the registry validator itself (net/url + netip of go1.26.8): parse = independent grammar (iff) with every component characterised (C20_tag_grammar, C20_repository_grammar, C20_digest_grammar, registry: C20_registry_regname_iff + C20_registry_bracket_iff = complete grammar of accepted registries modulo netip.ParseAddr, C20_registry_clean: no user-info / query / fragment / escape can hide in an accepted registry); format/parse round-trip for parsed references and for every Reference value that passes Validate (C20_validate_roundtrip); Repository.ParseReference characterised exactly (C20_repo_parse_iff_grammar) incl. agreement of the six forms and rejection of every other path (pre-fix code refuted); URL slot at full strength under RFC 3986 splitting with NO hypothesis about the registry left (C20_url_exact_go / _full, C20_op_requests_exact_paths_go); the query-carrying builders (referrers artifactType, blob mount: C20_url_referrers_at_exact, C20_url_mount_exact) and QueryEscape/ParseQuery round trips (C20_query_escape_roundtrip, C20_parse_query_encode) for all byte strings; every descriptor-driven operation (manifest/blob Fetch, Delete, Referrers, Mount, Push, Tags with setQueryParams paging) and Registry.Ping / Repositories: one request, documented method, exact slot, query decoding to exactly the documented parameters (C20_desc_op_requests_exact, C20_reg_op_requests_exact); every history of calls on a Repository stays in the base repository (C20_session_in_base), and so do oras.Tag / oras.TagN (content.go) for arbitrary source / destination strings (C20_oras_tag_in_base, C20_oras_tag_forms_agree); every Repository the constructors hand out has a valid base (C20_new_repository_base_ok, C20_registry_repository_base_ok); end to end without any premise about registry or base: NewRepository(s0) for any accepted s0, then any history of calls resp. oras.Tag/TagN with arbitrary arguments stays in that repository (C20_new_repository_session_in_base, C20_new_repository_oras_tag_in_base; C20_desc_op_requests_exact_go, C20_reg_op_requests_exact_go, C20_url_referrers_at_exact_go). Tie: regexes, URL-builder literals, separators and the go-digest pin are regenerated from the Go source on every run (kinds regex, funcstrlits, gosumhash, godigest_algorithms, neturl_table; the assembled builders are proved equal to the closed forms: C20_generated_builders_agree), 54 anchors; exhaustive small-scope + random + mutation differential run of model vs implementation on 14 case kinds (P R V G F W U Q O D T N E A) in two link configurations with coverage floors, per-operation watchdog and request cap; independent oracle (hand recognisers, ground truth by construction, net/url's own parse of every URL / query)",
+    "level_note": "correspondence only (hand model, no translator): net/url host parsing + netip.ParseAddr + QueryEscape (Model/NetURL.v, toolchain pinned), the control flow of go-digest's Digest.Validate (its table is translated; version and go.sum hash pinned), the request sequences of the operations (anchored). Oracle only (no theorem): error identity (errors.Is ErrInvalidReference). Operations are modelled for subject-less manifests in all three referrers-capability states, through the stores and the Repository wrappers; listings for their first page. Go regexp semantics = Base/Regex.v denotation",
     "technique": "machine-checked proof in Coq (regex derivative matcher proved correct; grammar equivalences; round-trips; RFC 3986 splitting of every built URL; induction over call histories) + translator-regenerated definitions (regexes, URL-builder literals, dependency pin) + model/implementation correspondence",
     "explanation": "theorems over all strings about the model of ParseReference / ValidateRegistry (net/url + netip) / String / Validate / Repository.ParseReference / all URL builders / reference- and descriptor-driven operations / constructors, with regexes and URL literals regenerated from the Go source; exhaustive small-scope + random differential run of model vs implementation in two link configurations; independent grammar / round-trip / net-url oracle",
 }
